@@ -22,7 +22,7 @@ ASSUMPTIONS = ['channel values lie in [0,255]; no NaN/inf',
                'monotonicity is tested on integer-valued channels and on real values at distance > 1e-6 from the knee '
                '(the standard\'s own constants make the piecewise function drop by 1.4e-7 at the knee)',
                'stretch: requested range min <= max lies inside the range of the requested dtype; image values finite, '
-               '|v| < 2^63; float outputs may exceed max by one rounding (1e-12 relative)']
+               '|v| < 2^63; bounds exactly representable in the requested dtype']
 EXHAUSTIVE = {'thorough': True}
 TRUSTED = ['numpy (array construction, dot, astype)', 'libm pow in the Lean runtime (Float.pow) within the stated tolerance']
 
@@ -239,9 +239,7 @@ def _eval_stretch(case):
         f.append(dict(kind='property', key='stretch:shape', detail=dict(shape=list(out.shape))))
         return dict(findings=f, nontrivial=True, sig=json.dumps(case, sort_keys=True), tags=dict(kind='stretch'))
     chans = [(img[..., k], out[..., k]) for k in range(img.shape[2])] if (case.get('rgb') and img.ndim == 3) else [(img, out)]
-    ftol = 1e-12 * max(1.0, abs(lo), abs(hi)) if odt.kind == 'f' else 0
-    if odt == np.float32:
-        ftol = 1e-6 * max(1.0, abs(lo), abs(hi))
+    ftol = 0        # the scaled image is capped at max before the cast: no overshoot, for float outputs either
     nontriv = False
     for ci, (x, y) in enumerate(chans):
         xv = x.astype(np.float64).ravel()
